@@ -1,1 +1,5 @@
-fn main(){}
+//! Feature-matrix runner (C16): built once per subset of {history, autocomplete, help}.
+//! One JSON request {cfg, ops} per stdin line, one trace per stdout line.
+fn main() {
+    vmodel::genrun::main_loop(|_d, req| vmodel::tracerun::serve(req));
+}
